@@ -221,7 +221,8 @@ def _classes(case):
 
 SUBCHECKS = [
     SubCheck("arrival_and_reverse_azimuth", check_arrival, strategy=pairs(), nontrivial=_nt, classes=_classes,
-             quick=4000, thorough=400000, shards_quick=4, shards_thorough=16,
+             quick=3000, thorough=300000, shards_quick=4, shards_thorough=16,
+             seq_groups=[["ell"], ["lat1", "lon1"], ["lat2", "lon2", "pair"]],
              rule="exact direct geodesic with (distance, azimuth1to2) arrives within 2 mm of point 2; azimuth2to1 = arrival azimuth + 180"),
     SubCheck("swap_symmetry", check_swap, strategy=pairs(), nontrivial=_nt, classes=_classes,
              quick=3000, thorough=300000, shards_quick=3, shards_thorough=12,
